@@ -135,6 +135,10 @@ func (c19) Cases(tier string, seed uint64) []fw.Case {
 	}
 	ctags := tagsFor(csrcs)
 	for i, n := range cnames {
+		if strings.Contains(csrcs[i]["main"], "time.now") {
+			// a program that prints the wall clock differs from its own reprint whenever a minute passes between the runs
+			continue
+		}
 		add("c19-corpus-"+n, "corpus", Payload{Name: n, Source: csrcs[i]}, append([]string{"corpus:" + n}, ctags[i]...))
 	}
 	// (c)+(d) hand-written printer coverage and optimizer sets
